@@ -405,6 +405,10 @@ func writeValue(buf *bytes.Buffer, v value) {
 		fmt.Fprintf(buf, "<opaque:%s>", v.desc)
 	case decStr:
 		fmt.Fprintf(buf, "dec(%s)", v.t)
+	case symStr:
+		fmt.Fprintf(buf, "symstr[%d]", len(v.bs))
+	case enumStr:
+		fmt.Fprintf(buf, "oneof%v", v.table)
 
 	case *value:
 		if v == nil {
